@@ -87,11 +87,11 @@ B = ["C01", "C03"]
 add("F4", B, "C01.bounds|cast|compiler::bytecodegen::ByteCodeGenerator|usize->u8|call:sum|x1", "GlobalPos = u8: with more than 255 global words global addresses alias on the VM (g43 + g299 = 598 on VM, 342 on WASM)")
 add("F4", B, "C01.bounds|cast|compiler::bytecodegen::ByteCodeGenerator|usize->u8|place|x1", "GlobalPos = u8 (lookup path of the same truncation)")
 add("F6", B, "C01.bounds|checked-unwrap|compiler::bytecodegen::ByteCodeGenerator::emit_instruction|HFloat", "array literal with more than 2049 elements: HFloat::try_from(i as f64).unwrap() panics in the bytecode generator; WASM compiles it")
-add("F5", B, "C01.bounds|bump|next_global_offset", "WASM global region 256..512 is never bounded: 150 globals overlap the state-exchange and allocation areas (dsp returns 126 instead of 225)")
+add("F5", B, "C01.bounds|bump|region@256", "WASM global region 256..512 is never bounded: 150 globals overlap the state-exchange and allocation areas (dsp returns 126 instead of 225)")
 add("F26", ["C01"], "C01.tables|name|not", "builtin `not` exists only in the VM's builtin table: the WASM generator neither resolves it as an import nor is it lowered as an intrinsic; `not(0.0) + 1.0` is 2.0 on the VM and 1.0 on WASM (findings/repro/F26_builtin_not.mmm)")
 fixed("F27", "C01", "76e23e4", "C01.prims|array-index|GetArrayElem", "array index +inf: the VM mapped a non-finite index to element 0 while WASM saturates and clamps to the last element: `a[1.0/0.0]` on [10,20,30] was 10.0 on the VM and 30.0 on WASM; the VM now saturates too (findings/repro/F27_*.mmm)")
 add("F9", ["C01"], "C01.prims|null-array|GetArrayElem", "indexing the empty rest of an array (the null array handle): the WASM host special-cases the sentinel handle and yields zeros, the VM's handle lookup panics `Invalid ArrayIdx` (findings/repro/F9_split_head_rest_index.mmm: VM panic, WASM 1.0)")
-add("F22", B, "C01.bounds|bump|state_temp_base", "WASM state-exchange region 512..1024 (64 words) is never bounded: 70 functions using `self` push GetState scratch slots into the allocation area; dsp returns 1,3,5 instead of 300 (findings/repro/F22_state_temp_overflow.mmm)")
+add("F22", B, "C01.bounds|bump|region@512", "WASM state-exchange region 512..1024 (64 words) is never bounded: 70 functions using `self` push GetState scratch slots into the allocation area; dsp returns 1,3,5 instead of 300 (findings/repro/F22_state_temp_overflow.mmm)")
 
 # ---- stated beliefs (C03.belief; the same sites are cited by C04.belief) -------------------------------
 add("F7", ["C03"], 'C03.belief|site|compiler::mirgen::Context::try_make_delay|unreachable|unreachable!("unbounded delay access, should be an error at typing stage.")', "delay(n, x, t) with a non-literal n: unreachable! in mirgen on both back ends (the type checker accepts it)")
@@ -159,7 +159,7 @@ add("F47", ["C11", "C01"], "C11.closure-lifetime|executor|generate_exec_closure_
 add("F55", ["C04"], "C04.assign-protocol|kind|RecordExpr", "`let r = {a = x = 1.0, b = 2.0}`: the record literal's lowering reads `a = x` and drops `= 1.0` without any diagnostic (x stays 0.0 on both back ends); findings/repro/F53_residual_record_field_assignment.mmm")
 
 # ---- error vectors dropped by the unifier (C03.error-drop) ----------------------------------------------------
-add("F56", ["C03"], "C03.error-drop|drop|compiler::typing::unification::unify_vec|collect", "element-wise tuple unification collects the element errors and answers Ok when the remaining relations are consistent: `fn f(a:float, b:(float)->float){ b(a) }  fn dsp(){ f(1.0, 2.0) }` passes the type checker; the VM panics `Invalid indirect callable`, WASM traps `indirect call type mismatch` (findings/repro/F56_tuple_unify_drops_errors.mmm; _b: a number passed for a tuple gives an invalid WASM module). Returning the errors makes 6 existing tests fail: the suite pins the number of diagnostics of many_errors.mmm at 10, and the `str + 2.0` in that file is itself an instance of the defect (an 11th, correct, diagnostic appears); fixtures with default-valued record parameters rely on the leniency too. So it is recorded, not repaired")
+add("F56", ["C03"], "C03.error-drop|drop|compiler::typing::unification|collect|x1", "element-wise tuple unification collects the element errors and answers Ok when the remaining relations are consistent: `fn f(a:float, b:(float)->float){ b(a) }  fn dsp(){ f(1.0, 2.0) }` passes the type checker; the VM panics `Invalid indirect callable`, WASM traps `indirect call type mismatch` (findings/repro/F56_tuple_unify_drops_errors.mmm; _b: a number passed for a tuple gives an invalid WASM module). Returning the errors makes 6 existing tests fail: the suite pins the number of diagnostics of many_errors.mmm at 10, and the `str + 2.0` in that file is itself an instance of the defect (an 11th, correct, diagnostic appears); fixtures with default-valued record parameters rely on the leniency too. So it is recorded, not repaired")
 
 # ---- invented binder names (C16.invented-names) ----------------------------------------------------------------
 add("F65", ["C16"], "C16.invented-names|binder|feed_id{}", "`fn dsp(){ let feed_id0 = 5.0  self * 0.5 + feed_id0 }` gives 7.5, 7.5, 7.5 where the same program with the variable called `k` gives 5, 7.5, 8.75: convert_self binds the feedback variable of `self` under the spellable name feed_id<N>, which captures the user's variable (findings/repro/F65_*.mmm). Not repaired: the repository's unit test convert_pronoun::test pins the spelling `feed_id0`")
